@@ -1,7 +1,7 @@
 SPECIFICATION Spec
 CONSTANTS
-  Ops <- Ops_3L2F
-  R0Set <- R0_12
+  Ops <- Ops_2L1F
+  R0Set <- R0_01
   Eager = TRUE
   SkipZeroRetry = FALSE
   NoReprobe = FALSE
